@@ -12,7 +12,7 @@ import AxVerif.Lemmas.DbHist
 namespace AxVerif.Db.C04
 open AxVerif.Db
 
-def catT : Catalog := [⟨"t", [⟨"k", .big, false, false⟩, ⟨"v", .int, false, false⟩]⟩]
+def catT : Catalog := [{ name := "t", cols := [⟨"k", .big, false, false⟩, ⟨"v", .int, false, false⟩] }]
 
 def kEq (n : Int) : Option Pred := some ⟨"k", .eq, .int n⟩
 
@@ -93,7 +93,7 @@ theorem spec_others_do_not_touch (α : Spec.State) (s : String) (op : Op) (h : o
 /-- a statement of the transaction appends exactly its own effects (none when it fails) -/
 theorem spec_own_write_extends (cat : Catalog) (c : Nat) (a : Spec.ATxn) (st : Stmt) :
     (Spec.stmt cat c a 0 st).1 = a ∨
-    (Spec.stmt cat c a 0 st).1 = { a with effs := a.effs ++ (planStmt cat c 0 a.view st).effs } := by
+    (Spec.stmt cat c a 0 st).1 = { a with effs := a.effs ++ (planStmt none cat c 0 a.view st).effs } := by
   unfold Spec.stmt
   simp only
   split
